@@ -66,19 +66,19 @@ PROPS = {
         "assumptions": ["fewer than 14 groups alive is the precondition under which the search succeeds"],
     },
     "C18": {
-        "claim": "Decides the structural clauses XP1–XP4 of to_xml()/to_dot(): per-vertex emission is control-dependent on the slot's tag being non-zero (sibling rule over keys / Debug / to_xml / to_dot), vertices come from the ascending store iteration or a sort by id and edges pass a sort by label, one edge entry per item of the vertex's edge map with that item's label and target and no condition on the edge, and the data entry is guarded by persistence ∉ {Empty} (nothing narrower) and prints that vertex's data; neither the vertex walk nor the edge walk is left early (no break / success return inside). Does not decide well-formedness/escaping of the produced text. RW7 (derived Ord of Label: the sort the exports rely on is the total order of the enum value) and HX6 (Display of Hex, which the DOT export embeds, writes exactly print()) and HX2 (print() and the other views of Hex do not depend on the representation: equal data print equally) are run as premises.",
+        "claim": "Decides the structural clauses XP1–XP4 of to_xml()/to_dot(): per-vertex emission is control-dependent on the slot's tag being non-zero (sibling rule over keys / Debug / to_xml / to_dot), vertices come from the ascending store iteration or a sort by id and edges pass a sort by label, one edge entry per item of the vertex's edge map with that item's label and target and no condition on the edge, and the data entry is guarded by persistence ∉ {Empty} (nothing narrower) and prints that vertex's data; neither the vertex walk nor the edge walk is left early (no break / success return inside). Does not decide well-formedness/escaping of the produced text. RW7 (derived Ord of Label: the sort the exports rely on is the total order of the enum value) and HX6 (Display of Hex, which the DOT export embeds, writes exactly print()) and HX2 (print() and the other views of Hex do not depend on the representation: equal data print equally) are run as premises. LB4/LB5 (the text a label is exported with is its own text: Debug/Display of Label filter exactly the padding character from_str writes, print the alpha prefix it tests, and Display delegates to Debug) are run as premises: an edge entry carries the label as bound.",
         "note": "Trusted: rustc front end + engine; emap iteration is ascending and skips no Some slot; itertools sorted_by_key is a stable sort. The text-level clause (document parses back) is not decided.",
         "technique": "MIR guard + iterator-chain (taint/sanitiser) + provenance rules",
-        "rules": [("XP1", L.xp1), ("XP2", L.xp2), ("XP3", L.xp3), ("XP4", L.xp4), ("RW7", LB.lb7), ("HX6", H.hx6), ("HX2", H.hx2)],
+        "rules": [("XP1", L.xp1), ("XP2", L.xp2), ("XP3", L.xp3), ("XP4", L.xp4), ("RW7", LB.lb7), ("HX6", H.hx6), ("HX2", H.hx2), ("LB4/LB5", LB.lb45)],
         "explanation": "XP1 present filter (sibling rule, floor 4 listings), XP2 ascending vertex order and label-sorted edges, XP3 one unconditional entry per edge with its label and target, XP4 data entry iff has-data.",
         "trusted": [RUSTC, CONTAINERS],
         "assumptions": ["labels need no XML escaping (property precondition)"],
     },
     "C20": {
-        "claim": "Decides IN1–IN4: the recursive descent of inspect() is control-dependent on the target not being in the visited set and vertices are marked before descending (termination on cycles); one unconditional line per edge of the visited vertex with its label and target; Debug/Display list a slot only if its tag is non-zero, with every edge and the data iff has-data, and no walk is left before its iterator is exhausted; v_print selects the data marker by persistence ∉ {Empty} of the printed vertex and lists one label per edge of that vertex. HX6/HX2 (the text a datum is listed with is print() of its bytes, whatever the representation) are run as premises.",
+        "claim": "Decides IN1–IN4: the recursive descent of inspect() is control-dependent on the target not being in the visited set and vertices are marked before descending (termination on cycles); one unconditional line per edge of the visited vertex with its label and target; Debug/Display list a slot only if its tag is non-zero, with every edge and the data iff has-data, and no walk is left before its iterator is exhausted; v_print selects the data marker by persistence ∉ {Empty} of the printed vertex and lists one label per edge of that vertex. HX6/HX2 (the text a datum is listed with is print() of its bytes, whatever the representation) are run as premises. LB4/LB5 (Debug/Display of Label print exactly the label's own text) are run as premises: every listing shows a label as it was bound.",
         "note": "Trusted: rustc front end + engine; std HashSet. Exactly-once listing follows from marked-before-descent + unconditional per-edge line (hand argument).",
         "technique": "MIR guarded-recursion + guard/provenance rules",
-        "rules": [("IN1", L.in1), ("IN2", L.in2), ("IN3", L.in3), ("IN4", L.in4), ("HX6", H.hx6), ("HX2", H.hx2)],
+        "rules": [("IN1", L.in1), ("IN2", L.in2), ("IN3", L.in3), ("IN4", L.in4), ("HX6", H.hx6), ("HX2", H.hx2), ("LB4/LB5", LB.lb45)],
         "explanation": "IN1 guarded recursion, IN2 per-edge line, IN3 Debug/Display present filter + edges + data, IN4 v_print marker and labels.",
         "trusted": [RUSTC, CONTAINERS],
         "assumptions": [],
@@ -147,10 +147,10 @@ PROPS = {
         "assumptions": [],
     },
     "C07": {
-        "claim": "Decides the sodg-side clause, in the conservative direction: no user-written unsafe block/fn/impl/extern block, raw pointer or transmute anywhere in the crate (HIR + MIR); every resolved callee in emap/micromap/microstack is outside the audited deny-list (uninitialised constructor, bitwise-reading iterators, *_unchecked, any unsafe fn), so each element access goes through an entry point that asserts its bound in a debug-assertion build; Stack::from_vec only on a literal of at most 16 elements; the locked checksums of the containers equal the audited ones; the element types for which the containers' bitwise reads are sound are unchanged; a graph built from the ids of another one (slice) gets that graph's vertex capacity. It can reject code that is in fact safe; it cannot accept code that leaves the checked API. Does not decide the containers' internals, release builds, or 'calls within the limits complete' (C02's no-panic clause). GC6c: the two group tables are created with the same size, so a group id valid for one is valid for the other. NX2: next_id() searches the whole vertex store from the allocator position, so it completes whenever an absent id at or above the position remains (one instance of 'calls within the limits complete'; the clause as a whole is not decided). CL1: a clone has every table of the original (a clone without the counters stops in the first read). RW1: bind() contains no always-compiled assertion other than the documented preconditions and the container's own full-map condition, and records an edge only through micromap's insert (which asserts room for a new key) or a checked_insert whose refusal is unwrapped, so the (N+1)-th label stops with a panic. MS7 (check before change): in add/bind/put/data every change of the graph is dominated by the vertex-table lookup of each id parameter, so a call stopped for an id at or above the capacity leaves the graph as it was and later calls within the limits still complete. LM (exact): a member list holds exactly 16 vertices, so the 17th member of a group stops in microstack's push assertion, and the group tables have at least the documented 16 slots.",
+        "claim": "Decides the sodg-side clause, in the conservative direction: no user-written unsafe block/fn/impl/extern block, raw pointer or transmute anywhere in the crate (HIR + MIR); every resolved callee in emap/micromap/microstack is outside the audited deny-list (uninitialised constructor, bitwise-reading iterators, *_unchecked, any unsafe fn), so each element access goes through an entry point that asserts its bound in a debug-assertion build; Stack::from_vec only on a literal of at most 16 elements; the locked checksums of the containers equal the audited ones; the element types for which the containers' bitwise reads are sound are unchanged; a graph built from the ids of another one (slice) gets that graph's vertex capacity. It can reject code that is in fact safe; it cannot accept code that leaves the checked API. Does not decide the containers' internals, release builds, or 'calls within the limits complete' (C02's no-panic clause). GC6c: the two group tables are created with the same size, so a group id valid for one is valid for the other. NX2: next_id() searches the whole vertex store from the allocator position, so it completes whenever an absent id at or above the position remains (one instance of 'calls within the limits complete'; the clause as a whole is not decided). CL1: a clone has every table of the original (a clone without the counters stops in the first read). RW1: bind() contains no always-compiled assertion other than the documented preconditions and the container's own full-map condition, and records an edge only through micromap's insert (which asserts room for a new key) or a checked_insert whose refusal is unwrapped, so the (N+1)-th label stops with a panic. MS7 (check before change): in add/bind/put/data every change of the graph is dominated by the vertex-table lookup of each id parameter, so a call stopped for an id at or above the capacity leaves the graph as it was and later calls within the limits still complete. LM (exact): a member list holds exactly 16 vertices, so the 17th member of a group stops in microstack's push assertion, and the group tables have at least the documented 16 slots. GC5 is run as a premise of the group-size clause: bind() enlists a vertex only through microstack's asserting push(), paired with the tag write, so the 17th member stops with a panic instead of being dropped silently (try_push with its answer ignored).",
         "note": "Trusted: the audit of emap 0.0.13 / micromap 0.0.19 / microstack 0.0.7 by reading (DESIGN §3): bounds asserted under debug_assertions, push asserts in all builds. Claimed for debug-assertion builds only, as the property says.",
         "technique": "HIR/MIR unsafe scan + who-may-call deny-list over resolved callees + lockfile/type facts",
-        "rules": [("MS1", MS.ms1), ("MS2", MS.ms2), ("MS3", MS.ms3), ("MS4", MS.ms4), ("MS5", MS.ms5), ("MS6", MS.ms6), ("MS7", MS.ms7), ("RW1", functools.partial(RW.rw1, only_stop=True)), ("NX2/NX3", NX.nx23), ("CL1/CL4", NX.cl1), ("GC6c", functools.partial(G.gc6, parts="c")), ("LM", functools.partial(G.limits, exact=True)), ("MS2x", MS.ms_cross)],
+        "rules": [("MS1", MS.ms1), ("MS2", MS.ms2), ("MS3", MS.ms3), ("MS4", MS.ms4), ("MS5", MS.ms5), ("MS6", MS.ms6), ("MS7", MS.ms7), ("RW1", functools.partial(RW.rw1, only_stop=True)), ("NX2/NX3", NX.nx23), ("CL1/CL4", NX.cl1), ("GC6c", functools.partial(G.gc6, parts="c")), ("LM", functools.partial(G.limits, exact=True)), ("MS2x", MS.ms_cross), ("GC5", G.gc5)],
         "explanation": "MS1 no unsafe, MS2 container deny-list over all resolved callees (floor 60 sites), MS3 from_vec literal, MS4 audited checksums, MS5 element types; thorough adds a clippy disallowed_methods cross-check.",
         "trusted": [RUSTC, CONTAINERS],
         "assumptions": ["debug-assertion builds"],
